@@ -6,6 +6,12 @@ Correspondence (model ~ code), every line is one call of the real code and of th
   utf8  `bytes.decode("utf-8")` vs utf8Valid (the restated library function)
   enc   structured messages built from the repo's own types -> `Message.encode()` vs encode
   dec   `Message.decode(bytes)` -> field tuple or exception type vs decode
+  sock  one datagram arriving on the udp6 socket (`RecvmsgSelectorDatagramTransport._read_ready` over a kernel-like
+        socket object -> `MessageInterfaceUDP6.datagram_msg_received`) -> dispatched message / dropped vs udp6Receive
+An option number whose registered format class is none of the five the model transcribes is handled generically
+(kind "x": value = wire bytes, built through the class's own decode(); judged by the oracle on the observables
+"decode keeps the value bytes / encode gives them back"; `enc` lines with such an option are out-of-model, the `fmt`
+and `dec` lines report the class as a disagreement).
 Oracle (independent RFC 7252 parser/serialiser, harness/c01_rfc7252.py):
   * encode output must parse under the RFC to exactly the message, and decode back to it;
   * a datagram that is RFC-well-formed must be parsed into the fields the RFC assigns;
@@ -13,7 +19,9 @@ Oracle (independent RFC 7252 parser/serialiser, harness/c01_rfc7252.py):
     serialise again and parse back to itself;
   * the same byte strings go through the real receive paths
     (`MessageInterfaceUDP6.datagram_msg_received`, `GenericMessageInterface._received_datagram`):
-    nothing may escape, and a message is dispatched iff it parses.
+    nothing may escape, and a message is dispatched iff it parses;
+  * from the udp6 socket on: up to the largest UDP payload (65527) a well-formed datagram is dispatched as the RFC
+    reads it and a message is dispatched iff the bytes parse; beyond: the whole datagram's message or nothing.
 """
 import asyncio
 import logging
@@ -30,7 +38,11 @@ RULE = ("Structured: messages over type x code 0..255 x MID x token 0..8 x optio
         "its bytes are decoded (dec case). Boundary table enumerated in full: deltas and value lengths "
         "12/13/268/269/65803/65804/65805 from several bases, all 16 nibbles x extension shapes, TKL "
         "0..15 complete and truncated, code/MID limits, payload marker shapes, Block SZX/M, the format "
-        "table for 0..2100, all 1- and 2-byte strings for UTF-8 plus structured 3/4-byte boundaries. "
+        "table for 0..2100, all 1- and 2-byte strings for UTF-8 plus structured 3/4-byte boundaries; every "
+        "named option number (and unnamed neighbours) x value lengths 0..5/8/9/12/13/14 x ASCII and non-UTF-8/"
+        "leading-zero fillings as received bytes, whatever length range RFC 7252 5.10 gives the option; datagrams "
+        "of 4000..65527 bytes around the receive buffer and 65535..70000 beyond a UDP datagram's size, well-formed "
+        "and not, delivered through the udp6 socket receive path. "
         "Malformed stream (<= 50 %): truncations, single-byte mutations and insertions of valid "
         "datagrams (exhaustive for three corpus seeds, sampled for the rest). uint-like options "
         "longer than 600 bytes are not generated (decimal/hex big-number printing cost). "
@@ -38,14 +50,26 @@ RULE = ("Structured: messages over type x code 0..255 x MID x token 0..8 x optio
         "than length < 4; distinct by full input.")
 TRUSTED = ["independent RFC 7252 parser/serialiser and RFC 3629 checker in harness/c01_rfc7252.py"]
 ASSUMPTIONS = ["byte strings are sequences of values < 256 (Bytes.wf)",
+               "the kernel's recvmsg() on a datagram socket hands out at most bufsize bytes of one datagram and sets "
+               "MSG_TRUNC iff bytes were discarded (recvmsg(2)); the harness's socket object and the model do the same",
                "message type is a Type enum member (0..3); None fields (TypeError) are not modelled"]
 
 BOUNDS = [12, 13, 268, 269, 65803, 65804, 65805]
 MAX_EXT = 65804
+MAX_UDP_PAYLOAD = 65527          # 16-bit UDP length minus the 8-byte UDP header (IPv4 allows 20 less)
 KIND_OF_CLASS = {"StringOption": "s", "OpaqueOption": "o", "UintOption": "u",
                  "BlockOption": "b", "ContentFormatOption": "c"}
 FMT_NAME = {"StringOption": "string", "OpaqueOption": "opaque", "UintOption": "uint",
             "BlockOption": "block", "ContentFormatOption": "contentFormat"}
+
+
+def known_class_name(cls):
+    """name of the first class in the MRO that is one of the five format classes the model transcribes (a subclass
+    that only renames or decorates one of them is compared through its behaviour like its base), else None"""
+    for c in getattr(cls, "__mro__", ()):
+        if c.__name__ in KIND_OF_CLASS:
+            return c.__name__
+    return None
 
 
 def hx(b):
@@ -70,7 +94,13 @@ class Impl:
 
     # --- canonical strings (same syntax as the driver) ---
     def canon_val(self, o):
-        k = KIND_OF_CLASS.get(type(o).__name__)
+        k = KIND_OF_CLASS.get(known_class_name(type(o)))
+        if k is None:
+            # a format class this harness has no reading for: name it and show its wire observable
+            try:
+                return "x:%s:%s" % (type(o).__name__, hx(o.encode()))
+            except Exception as e:
+                return "x:%s:encode-raises-%s" % (type(o).__name__, type(e).__name__)
         if k == "s":
             return "s:" + hx(o.value.encode("utf-8"))
         if k == "o":
@@ -82,7 +112,7 @@ class Impl:
         if k == "b":
             v = o.value
             return "b:%d/%d/%d" % (v.block_number, 1 if v.more else 0, v.size_exponent)
-        return "?:" + type(o).__name__
+        raise HarnessError("unreachable kind %r" % k)
 
     def canon_msg(self, m):
         parts = [str(int(m.mtype)), str(int(m.code)), str(int(m.mid)), hx(m.token), hx(m.payload)]
@@ -112,6 +142,10 @@ class Impl:
                 v = bytes.fromhex(val)
             elif kind == "b":
                 v = (val[0], bool(val[1]), val[2])
+            elif kind == "x":
+                # unknown format class: the only way in that needs no knowledge of its value type is the wire side
+                m.opt.add_option(self.OptionNumber(num).create_option(decode=bytes.fromhex(val)))
+                continue
             else:
                 v = val
             m.opt.add_option(self.OptionNumber(num).create_option(value=v))
@@ -136,7 +170,14 @@ class Impl:
         return self.encode_msg(c)
 
     def kind_of(self, num):
-        return KIND_OF_CLASS[self.OptionNumber(num).format.__name__]
+        """value kind of the format class registered for `num`; "x" = a class this harness does not know (handled
+        generically: value given as wire bytes, judged by decode/encode observables, never compared with the model)"""
+        return KIND_OF_CLASS.get(known_class_name(self.OptionNumber(num).format), "x")
+
+    def fmt_name(self, num):
+        f = self.OptionNumber(num).format
+        n = known_class_name(f)
+        return FMT_NAME[n] if n else "?:" + (getattr(f, "__name__", None) or type(f).__name__)
 
     # --- the real receive paths, no sockets ---
     def transports(self):
@@ -260,7 +301,7 @@ class Impl:
 
 def opt_matches(raw, o):
     """does the parsed option object `o` carry the value the RFC bytes `raw` denote?"""
-    v = o.value
+    v = getattr(o, "value", None)
     if isinstance(v, str):
         try:
             return v.encode("utf-8") == raw
@@ -271,9 +312,14 @@ def opt_matches(raw, o):
     if isinstance(v, tuple) and hasattr(v, "block_number"):
         n = int.from_bytes(raw, "big")
         return (v.block_number, bool(v.more), v.size_exponent) == (n >> 4, bool(n & 8), n & 7)
-    if isinstance(v, int):
+    if isinstance(v, int) and not isinstance(v, bool):
         return int(v) == int.from_bytes(raw, "big")
-    return False
+    # a value type this harness has no reading for (an option format class it does not know): judge by the wire
+    # observable -- the option was handed `raw` by the parser, its serialisation must give `raw` back
+    try:
+        return bytes(o.encode()) == raw
+    except Exception:
+        return False
 
 
 def fields_match(f, m):
@@ -340,7 +386,7 @@ def spec_wellformed(spec, kind_of):
         if num - prev > MAX_EXT or kind != kind_of(num):
             return False
         prev = num
-        if kind in "so":
+        if kind in "sox":
             n = len(val) // 2
         elif kind == "b":
             if not (0 <= val[2] <= 7 and val[0] >= 0):
@@ -359,7 +405,7 @@ def spec_fields(spec):
     """the RFC-level fields of a structured message (options stably sorted, values as canonical bytes)"""
     opts = []
     for num, kind, val in sorted(spec["opts"], key=lambda o: o[0]):
-        if kind in "so":
+        if kind in "sox":
             raw = bytes.fromhex(val)
         elif kind == "b":
             n = (val[0] << 4) | (8 if val[1] else 0) | val[2]
@@ -406,7 +452,7 @@ def enc_line(spec):
     parts = ["C01 enc", str(spec["t"]), str(spec["c"]), str(spec["i"]),
              spec["tok"] or "-", spec["pl"] or "-"]
     for num, kind, val in spec["opts"]:
-        if kind in "so":
+        if kind in "sox":
             parts.append("%d:%s:%s" % (num, kind, val or "-"))
         elif kind == "b":
             parts.append("%d:b:%d/%d/%d" % (num, val[0], 1 if val[1] else 0, val[2]))
@@ -448,7 +494,7 @@ def rand_value(rng, kind, big=False):
         if big:
             b = b + b"x" * rng.choice([13, 255, 256, 269, 270, 300])
         return b.hex()
-    if kind == "o":
+    if kind in "ox":
         n = rng.choice([0, 0, 1, 2, 4, 8, 12, 13, 20]) if not big else rng.choice([268, 269, 270, 1000])
         return bytes(rng.getrandbits(8) for _ in range(n)).hex()
     if kind == "b":
@@ -499,6 +545,22 @@ def rand_spec(impl, rng):
               tok=bytes(rng.getrandbits(8) for _ in range(rng.randrange(9))), pl=pl, opts=opts)
 
 
+def zero_value(kind):
+    return 0 if kind in "uc" else ([0, False, 0] if kind == "b" else "")
+
+
+def as_kind(impl, num, kind, val):
+    """[num, kind, val] as the boundary table lays it out for the format RFC 7252 gives `num` -- unless the tree
+    under test registers a format class for `num` that this harness does not know: then the same value as its RFC
+    bytes, kind "x" (built through the class's own decode())"""
+    if impl.kind_of(num) != "x":
+        return [num, kind, val]
+    if kind in "so":
+        return [num, "x", val]
+    n = ((val[0] << 4) | (8 if val[1] else 0) | val[2]) if kind == "b" else val
+    return [num, "x", n.to_bytes((n.bit_length() + 7) // 8, "big").hex()]
+
+
 def boundary_specs(impl):
     """structured messages at every threshold of the model"""
     out = []
@@ -506,23 +568,23 @@ def boundary_specs(impl):
         for base in (0, 1, 11, 60, 65804):
             # delta b from `base`
             k0, k1 = impl.kind_of(base), impl.kind_of(base + b)
-            first = [[base, k0, 0 if k0 in "uc" else ([0, False, 0] if k0 == "b" else "")]] if base else []
-            second = [base + b, k1, 0 if k1 in "uc" else ([0, False, 0] if k1 == "b" else "")]
+            first = [[base, k0, zero_value(k0)]] if base else []
+            second = [base + b, k1, zero_value(k1)]
             out.append(mk(opts=first + [second]))
             out.append(mk(opts=[second] + first, pl=b"p"))          # added in reverse order
         # two consecutive deltas of b
-        out.append(mk(opts=[[b, impl.kind_of(b), "" if impl.kind_of(b) in "so" else 0],
-                            [2 * b, impl.kind_of(2 * b), "" if impl.kind_of(2 * b) in "so" else 0]]))
+        out.append(mk(opts=[[b, impl.kind_of(b), zero_value(impl.kind_of(b))],
+                            [2 * b, impl.kind_of(2 * b), zero_value(impl.kind_of(2 * b))]]))
         # value length b: opaque (ETag 4, unknown 2049) and string (Uri-Path 11)
-        out.append(mk(opts=[[4, "o", (b"\xa5" * b).hex()]]))
-        out.append(mk(opts=[[11, "s", (b"a" * b).hex()]], pl=b"\x00"))
-        out.append(mk(opts=[[2049, "o", (b"\x00" * b).hex()], [2049, "o", ""]]))
+        out.append(mk(opts=[as_kind(impl, 4, "o", (b"\xa5" * b).hex())]))
+        out.append(mk(opts=[as_kind(impl, 11, "s", (b"a" * b).hex())], pl=b"\x00"))
+        out.append(mk(opts=[as_kind(impl, 2049, "o", (b"\x00" * b).hex()), as_kind(impl, 2049, "o", "")]))
         if b <= 269:
             # uint of exactly b bytes
-            out.append(mk(opts=[[7, "u", 1 << (8 * b - 1)], [60, "u", (1 << (8 * b)) - 1]]))
-            out.append(mk(opts=[[12, "c", 1 << (8 * b - 8)]]))
+            out.append(mk(opts=[as_kind(impl, 7, "u", 1 << (8 * b - 1)), as_kind(impl, 60, "u", (1 << (8 * b)) - 1)]))
+            out.append(mk(opts=[as_kind(impl, 12, "c", 1 << (8 * b - 8))]))
     for n in range(0, 18):                                           # token lengths incl. >8, >15
-        out.append(mk(tok=bytes(range(1, n + 1)), opts=[[11, "s", "61"]]))
+        out.append(mk(tok=bytes(range(1, n + 1)), opts=[as_kind(impl, 11, "s", "61")]))
         out.append(mk(tok=bytes(range(1, n + 1))))
     for t in range(4):
         for c in (0, 1, 69, 255, 256):
@@ -531,15 +593,40 @@ def boundary_specs(impl):
     for szx in range(8):
         for more in (False, True):
             for num in (0, 1, 15, 16, 1 << 20):
-                out.append(mk(opts=[[23, "b", [num, more, szx]], [27, "b", [num, not more, szx]]]))
+                out.append(mk(opts=[as_kind(impl, 23, "b", [num, more, szx]), as_kind(impl, 27, "b", [num, not more, szx])]))
     for pl in (b"", b"\xff", b"\xff\xff", b"\x00", b"a" * 300):
         out.append(mk(pl=pl))
-        out.append(mk(pl=pl, opts=[[4, "o", "ff"]]))
+        out.append(mk(pl=pl, opts=[as_kind(impl, 4, "o", "ff")]))
     # every named option once, in reverse order, and each repeated
     named = impl.named
-    vals = {"s": "c3a9", "o": "00ff", "u": 258, "c": 50, "b": [3, True, 2]}
+    vals = {"s": "c3a9", "o": "00ff", "u": 258, "c": 50, "b": [3, True, 2], "x": "00ff"}
     out.append(mk(opts=[[n, impl.kind_of(n), vals[impl.kind_of(n)]] for n in reversed(named)]))
     out.append(mk(opts=[[n, impl.kind_of(n), vals[impl.kind_of(n)]] for n in named for _ in (0, 1)]))
+    return out
+
+
+VALUE_LENGTHS = [0, 1, 2, 3, 4, 5, 8, 9, 12, 13, 14]
+
+
+def option_value_grid(named):
+    """every option number the tree under test has a name for (plus neighbours without one, 0, and numbers in the
+    extended-delta ranges) x value lengths 0..5, 8, 9 and the extended-length boundary x two fillings (ASCII: legal
+    for every format incl. string; bytes with leading zero / high bits: not UTF-8, non-minimal for integers) --
+    laid out by the oracle's serialiser, regardless of the length range RFC 7252 5.10 gives the option: a length
+    outside that range is not a message format error (5.4.3), the value bytes are still the option's value.
+    Alone, and behind another option (non-zero base for the delta) with a payload after it."""
+    nums = sorted(set(named) | {0, 2, 10, 16, 18, 22, 24, 29, 31, 61, 268, 269, 2049, 65000, 65535, 65536})
+    out = []
+    for num in nums:
+        for ln in VALUE_LENGTHS:
+            for fill in (bytes((0x61 + k) % 0x7F for k in range(ln)),
+                         bytes([0x00, 0xFF, 0x80, 0x07] * 4)[:ln]):
+                if ln == 0 and fill != b"":
+                    continue
+                out.append(rfc.build(rfc.Fields(0, 1, 0x1234, b"", [(num, fill)], b"")))
+                if ln in (0, 1, 4, 13):
+                    out.append(rfc.build(rfc.Fields(1, 2, 7, b"\x05", [(1, b"e"), (num, fill), (num, fill)] if num
+                                                    else [(num, fill), (1, b"e")], b"\xffpl")))
     return out
 
 
@@ -671,6 +758,12 @@ def run_enc(env, rep, impl, specs, tag):
         try:
             m = impl.build(spec)
         except Exception as e:
+            if any(k == "x" for _, k, _ in spec["opts"]):
+                # a format class this harness does not know refused the bytes through its decode(): the message is
+                # not one "the library can represent"; whether refusing those bytes on reception is right is judged
+                # on the dec side (option-value grid)
+                rep.count("enc:%s:unknown-format-class-refused-value" % tag)
+                continue
             raise HarnessError("cannot build message %r: %r" % (spec, e))
         out, exc = impl.encode_msg(m)
         cases.append(case)
@@ -707,7 +800,7 @@ def run_dec(env, rep, impl, datas, tag, malformed=False, transports=True):
             rep.count("malformed-stream")
         if m is not None:
             for o in m.opt.option_list():
-                rep.count("dec:value-kind=" + KIND_OF_CLASS.get(type(o).__name__, "?"))
+                rep.count("dec:value-kind=" + KIND_OF_CLASS.get(known_class_name(type(o)), "x"))
         v, key = oracle_decode(impl, data, out, m)
         if v:
             rep.oracle_fail(case, v, key=key)
@@ -727,7 +820,9 @@ def socket_datagrams(impl, rng):
     """well-formed datagrams whose size lies around the transport's receive buffer (4096) and up to the largest
     UDP payload, and a few malformed ones of those sizes"""
     out = []
-    for total in (4000, 4094, 4095, 4096, 4097, 4098, 4200, 5130, 8192, 8193, 20000, 65507):
+    for total in (4000, 4094, 4095, 4096, 4097, 4098, 4200, 5130, 8192, 8193, 20000, 65507, 65508, MAX_UDP_PAYLOAD,
+                  # beyond what a UDP length field can say (jumbograms): whole or nothing
+                  65535, 65536, 65537, 70000):
         for opts in ((), ((11, b"big"),)):
             head = bytes([0x51, 0x03, rng.randrange(256), rng.randrange(256), 0xAB])
             body = b"".join(bytes([0xB0 | len(v)]) + v for (_, v) in opts)
@@ -739,39 +834,80 @@ def socket_datagrams(impl, rng):
     head = bytes([0x41, 0x01, 1, 2, 0x33])
     out.append(head + bytes([0xBD, 255]) + b"a" * 268 + b"\xff" + b"p" * 4000)
     out.append(head + b"\xff" + b"q" * (4096 - len(head) - 1) + b"r" * 10)
+    # large and not well-formed: an option running over the end, reserved token length, marker without payload
+    out.append(head + bytes([0xBE, 0xFF, 0xFF]) + b"a" * 9000)
+    out.append(bytes([0x4C, 0x01, 1, 2]) + b"t" * 12 + b"\xff" + b"p" * 6000)
+    out.append(head + bytes([0x4E, 0x10, 0x00]) + b"e" * (4096 + 269) + b"\xff")
     return out
 
 
 def run_socket(env, rep, impl, datas):
+    cases, lines, outs = [], [], []
     for data in datas:
         case = {"kind": "sock", "hex": data.hex()}
         rep.case({"kind": "sock", "len": len(data), "hex": data.hex()[:200]}, nontrivial=True, sample_every=997)
-        v, key = oracle_socket(impl, data)
-        rep.count("socket:%s" % ("over-buffer" if len(data) > 4096 else "fits"))
+        v, key, out = judge_socket(impl, data)
+        cases.append({"kind": "sock", "len": len(data), "hex": data.hex()[:200]})
+        lines.append("C01 sock " + hx(data))
+        outs.append(out)
+        rep.count("socket:%s" % ("jumbo" if len(data) > MAX_UDP_PAYLOAD else "over-4096" if len(data) > 4096 else "small"))
         if v:
             rep.oracle_fail(case, v, key=key)
+    compare(env, rep, cases, lines, outs, what="udp6 socket receive path")
 
 
 def oracle_socket(impl, data):
-    """what the application layer is handed for the datagram `data` arriving on the socket: the message the RFC
-    reads out of *these* bytes, or nothing -- never a message read out of a part of them"""
+    v, key, _ = judge_socket(impl, data)
+    return v, key
+
+
+def judge_socket(impl, data):
+    """what the application layer is handed for the datagram `data` arriving on the udp6 socket.  Up to the largest
+    payload a UDP datagram can have, the transport is part of the parser the property talks about ("all byte strings
+    up to a datagram's size"; udp6.py is an anchor): a well-formed datagram is dispatched as the message the RFC reads
+    out of it, and in general a message is dispatched iff these bytes parse, and it is that message.  Beyond that
+    size (jumbograms): the message read out of *these* bytes or nothing -- never one read out of a part of them."""
     esc, got = impl.receive_via_socket(data)
     if esc:
-        return "udp6 socket receive path let %s through for a %d byte datagram" % (esc, len(data)), "udp6-socket-" + esc
+        return ("udp6 socket receive path let %s through for a %d byte datagram" % (esc, len(data)),
+                "udp6-socket-" + esc, "escaped:" + esc)
     if len(got) > 1:
-        return "udp6 socket receive path dispatched %d messages for one datagram" % len(got), "udp6-socket-count"
-    if not got:
-        return "", None                       # dropping is always allowed at this level (decode is judged elsewhere)
+        return ("udp6 socket receive path dispatched %d messages for one datagram" % len(got), "udp6-socket-count",
+                "dispatched-%d" % len(got))
+    v, key = _judge_socket(impl, data, got)
+    return v, key, ("dispatched " + impl.canon_msg(got[0])) if got else "dropped"
+
+
+def _judge_socket(impl, data, got):
     try:
         f = rfc.parse(data)
+        wf = rfc.strings_legal(f)
     except rfc.FormatError:
-        return ("udp6 socket receive path dispatched a message for a malformed %d byte datagram" % len(data),
-                "udp6-socket-malformed-dispatched")
-    d = fields_match(f, got[0])
-    if d:
-        return ("a %d byte datagram arriving on the udp6 socket was dispatched as a different message (%s; "
-                "dispatched payload %d bytes, sent %d)" % (len(data), d, len(got[0].payload), len(f.payload)),
-                "udp6-socket-truncated")
+        f, wf = None, False
+    out, m = impl.decode(data)
+    if not got:
+        if len(data) > MAX_UDP_PAYLOAD:
+            return "", None
+        if wf:
+            return ("a well-formed %d byte datagram arriving on the udp6 socket was not dispatched (RFC reading: T=%d "
+                    "code=%d mid=%d, %d options, %d payload bytes)"
+                    % (len(data), f.mtype, f.code, f.mid, len(f.options), len(f.payload)), "udp6-socket-dropped")
+        if m is not None:
+            return ("a %d byte datagram that Message.decode accepts was not dispatched by the udp6 socket receive "
+                    "path" % len(data), "udp6-socket-dropped")
+        return "", None
+    if m is None:
+        return ("udp6 socket receive path dispatched a message for a %d byte datagram that Message.decode rejects"
+                % len(data), "udp6-socket-malformed-dispatched")
+    if wf:
+        d = fields_match(f, got[0])
+        if d:
+            return ("a %d byte datagram arriving on the udp6 socket was dispatched as a different message (%s; "
+                    "dispatched payload %d bytes, sent %d)" % (len(data), d, len(got[0].payload), len(f.payload)),
+                    "udp6-socket-truncated")
+    if "ok " + impl.canon_msg(got[0]) != out:
+        return ("a %d byte datagram arriving on the udp6 socket was dispatched as a message different from "
+                "Message.decode of its bytes" % len(data), "udp6-socket-truncated")
     return "", None
 
 
@@ -824,7 +960,7 @@ def run_small(env, rep, impl):
             add({"kind": "ext-r", "nib": nib, "hex": raw.hex()}, "C01 ext r %d %s" % (nib, hx(raw)), out)
             rep.count("ext-r:" + ("err" if out == "err" else "ok"))
     for n in sorted(set(range(0, 2101)) | set(impl.named) | {65535, 65536, 65804, 100000, 200000}):
-        add({"kind": "fmt", "n": n}, "C01 fmt %d" % n, FMT_NAME.get(impl.OptionNumber(n).format.__name__, "?"),
+        add({"kind": "fmt", "n": n}, "C01 fmt %d" % n, impl.fmt_name(n),
             nontrivial=n in impl.named)
         rep.count("fmt:" + outs[-1])
     compare(env, rep, cases, lines, outs, what="ext/fmt")
@@ -853,15 +989,17 @@ def run_small(env, rep, impl):
 
 
 def corpus_cases():
-    decs, encs, seeds = [], [], []
+    decs, encs, seeds, socks = [], [], [], []
     for fn, c in load_corpus("C01"):
+        if c.get("kind") == "sock":
+            socks.append(bytes.fromhex(c["hex"]))
         if c.get("kind") == "dec":
             decs.append(bytes.fromhex(c["hex"]))
             if c.get("seed"):
                 seeds.append(bytes.fromhex(c["hex"]))
         elif c.get("kind") == "enc":
             encs.append(c["msg"])
-    return decs, encs, seeds
+    return decs, encs, seeds, socks
 
 
 def run(env, rep):
@@ -874,7 +1012,7 @@ def run(env, rep):
 
 def _run(env, rep, impl):
     rng = env.rng
-    cdec, cenc, cseeds = corpus_cases()
+    cdec, cenc, cseeds, csock = corpus_cases()
 
     # function-level pieces
     run_small(env, rep, impl)
@@ -889,6 +1027,9 @@ def _run(env, rep, impl):
     run_dec(env, rep, impl, bw, "boundary-wire")
     bd = boundary_datagrams()
     run_dec(env, rep, impl, bd, "boundary-bytes")
+    run_dec(env, rep, impl, option_value_grid(impl.named), "option-value-grid")
+    rep.exhaustive_parts.append("every named option number x value lengths %s x 2 fillings as received bytes"
+                                % VALUE_LENGTHS)
     rep.exhaustive_parts.append("boundary table: deltas/lengths %s, 256 nibble pairs, TKL 0..15" % BOUNDS)
 
     # random structured messages
@@ -908,7 +1049,7 @@ def _run(env, rep, impl):
     run_dec(env, rep, impl, alt, "oracle-built", transports=False)
 
     # the receive path from the socket on: datagrams around and beyond the receive buffer of the udp6 transport
-    run_socket(env, rep, impl, bw[:60] + socket_datagrams(impl, rng))
+    run_socket(env, rep, impl, csock + bw[:60] + socket_datagrams(impl, rng))
 
     # malformed stream
     exhaustive_seeds = cseeds
@@ -927,7 +1068,8 @@ def _run(env, rep, impl):
     n_mal = rep.hist.get("malformed-stream", 0)
     if n_mal * 2 > rep.evaluations:
         raise HarnessError("malformed stream is %d of %d cases (> 50 %%)" % (n_mal, rep.evaluations))
-    need = ["dec:value-kind=s", "dec:value-kind=o", "dec:value-kind=u", "dec:value-kind=b", "dec:value-kind=c",
+    need = ["socket:small", "socket:over-4096", "socket:jumbo", "dec:option-value-grid:ok",
+            "dec:value-kind=s", "dec:value-kind=o", "dec:value-kind=u", "dec:value-kind=b", "dec:value-kind=c",
             "dec:malformed:err:unparsable", "dec:malformed:ok", "enc:boundary:err:ValueError",
             "enc:boundary:err:struct.error", "receive:udp6:dropped", "receive:udp6:dispatched",
             "receive:generic_udp:dropped", "receive:generic_udp:dispatched"]
